@@ -415,7 +415,11 @@ def octets_specs(tier):
     return out
 
 
-CHAR_ALPHABET = ("a", "é", "€", "\U0001F600", "\x00", "\x7f")
+# one character per UTF-8 length class and per class of character that text codecs like to treat specially: NUL, DEL, the
+# first two-octet character, the byte order mark / zero width no-break space, the replacement character, the last BMP and
+# the last Unicode code point, blank, line feed, a combining mark
+CHAR_ALPHABET = ("a", "é", "€", "\U0001F600", "\x00", "\x7f", "\ufeff", "\ufffd", "\uffff", "\U0010ffff", "\x80", " ", "\n",
+                 "\u0300")
 
 
 def chars_specs(tier):
@@ -536,7 +540,7 @@ def class_specs(K, tier):
     return out
 
 
-INBOUND_TEXTS = ["", "A", "Az09", "éÿ", "€", "a€b", "\U0001F600", "x" * 62, "y" * 63, "z" * 64,
+INBOUND_TEXTS = ["", "A", "Az09", "éÿ", "€", "a€b", "\U0001F600", "\ufeffA", "A\ufeff", " A ", "x" * 62, "y" * 63, "z" * 64,
                  "w" * 126, "v" * 127, "u" * 252, "t" * 253]
 
 
